@@ -35,7 +35,8 @@ def _enter(eng, st, cm, node):
 			yield st, cm.data.get('value')
 			return
 		if cm.kind in ('executor', 'meter', 'file', 'progress_iter'):
-			yield st, cm.data.get('enter', cm)
+			e_ = cm.data.get('enter', cm)
+			yield st, (cm if e_ is None else e_)
 			return
 	h = eng.lib.get('enter:' + type(st.deref(cm)).__name__)
 	if h is not None:
